@@ -34,6 +34,12 @@ func New(impl string) Store {
 	case "node-map":
 		d := map[string]interface{}{}
 		return &goStore{name: impl, data: d, root: &nodeutil.Node{Object: d}}
+	case "reflect-slice":
+		d := map[string]interface{}{}
+		return &goStore{name: impl, data: d, root: nodeutil.ReflectChild(d), slices: true}
+	case "node-slice":
+		d := map[string]interface{}{}
+		return &goStore{name: impl, data: d, root: &nodeutil.Node{Object: d}, slices: true}
 	}
 	panic("unknown store impl " + impl)
 }
@@ -50,6 +56,9 @@ type goStore struct {
 	name string
 	data map[string]interface{}
 	root node.Node
+	// slices: lists loaded by Load are []map[string]interface{} (lists the
+	// library creates itself are still maps)
+	slices bool
 }
 
 func (s *goStore) Name() string    { return s.name }
@@ -163,7 +172,7 @@ func inspectVal(defs []meta.Definition, v reflect.Value) *model.Tree {
 // the library itself creates for map-backed lists. Returns false when the
 // tree cannot be represented (two entries sharing their first key component).
 func (s *goStore) Load(defs []meta.Definition, t *model.Tree) bool {
-	m, ok := toGo(defs, t)
+	m, ok := toGo(defs, t, s.slices)
 	if !ok {
 		return false
 	}
@@ -173,7 +182,7 @@ func (s *goStore) Load(defs []meta.Definition, t *model.Tree) bool {
 	return true
 }
 
-func toGo(defs []meta.Definition, t *model.Tree) (map[string]interface{}, bool) {
+func toGo(defs []meta.Definition, t *model.Tree, slices bool) (map[string]interface{}, bool) {
 	out := map[string]interface{}{}
 	for _, d := range model.FlatDefs(defs) {
 		id := d.Ident()
@@ -184,6 +193,18 @@ func toGo(defs []meta.Definition, t *model.Tree) (map[string]interface{}, bool) 
 				continue
 			}
 			km := x.KeyMeta()
+			if slices {
+				sl := []map[string]interface{}{}
+				for _, e := range l.Entries {
+					em, ok := toGo(x.DataDefinitions(), e, slices)
+					if !ok {
+						return nil, false
+					}
+					sl = append(sl, em)
+				}
+				out[id] = sl
+				continue
+			}
 			if len(km) == 0 {
 				return nil, false
 			}
@@ -207,7 +228,7 @@ func toGo(defs []meta.Definition, t *model.Tree) (map[string]interface{}, bool) 
 				if mp.MapIndex(kv).IsValid() {
 					return nil, false
 				}
-				em, ok := toGo(x.DataDefinitions(), e)
+				em, ok := toGo(x.DataDefinitions(), e, slices)
 				if !ok {
 					return nil, false
 				}
@@ -219,7 +240,7 @@ func toGo(defs []meta.Definition, t *model.Tree) (map[string]interface{}, bool) 
 			if !ok {
 				continue
 			}
-			cm, ok := toGo(x.DataDefinitions(), c)
+			cm, ok := toGo(x.DataDefinitions(), c, slices)
 			if !ok {
 				return nil, false
 			}
